@@ -53,7 +53,13 @@ class CoreProp(PropBase):
 
     def features(self, cfg, viol):
         info = viol.get("info") or {}
-        return {k: v for k, v in info.items() if isinstance(v, (str, int, bool)) and k in ("self_conflict", "exc", "dom", "prio", "uncalled", "via_alias", "called")} | {"sched": cfg["sched"]}
+        f = {k: v for k, v in info.items() if isinstance(v, (str, int, bool)) and k in ("self_conflict", "exc", "dom", "prio", "uncalled", "via_alias", "called")}
+        f["sched"] = cfg["sched"]
+        try:
+            f.update(Analysis(cfg["prog"]).shape_flags())
+        except Exception:
+            pass
+        return f
 
     def violation_class(self, feats):
         return {"kind": feats["kind"]}
